@@ -33,11 +33,11 @@ ALL_BS = tuple([bytes_per_core('gcp', w) for w in GCP_TYPES] + [bytes_per_core('
 MAX_STORAGE = {'gcp': gcp.GCP_MAX_PERSISTENT_SSD_SIZE_GIB * GIB, 'azure': az.AZURE_MAX_PERSISTENT_SSD_SIZE_GIB * GIB}
 
 CUT_SPECS = [
-    ('batch/batch/cloud/gcp/resource_utils.py', 'gcp_adjust_cores_for_memory_request', gcp, ('mdiv',)),
+    ('batch/batch/cloud/gcp/resource_utils.py', 'gcp_adjust_cores_for_memory_request', gcp, ('mdiv', 'imax')),
     ('batch/batch/cloud/gcp/resource_utils.py', 'gcp_cores_mcpu_to_memory_bytes', gcp, ('scale',)),
-    ('batch/batch/cloud/azure/resource_utils.py', 'azure_adjust_cores_for_memory_request', az, ('mdiv',)),
+    ('batch/batch/cloud/azure/resource_utils.py', 'azure_adjust_cores_for_memory_request', az, ('mdiv', 'imax')),
     ('batch/batch/cloud/azure/resource_utils.py', 'azure_cores_mcpu_to_memory_bytes', az, ('scale',)),
-    ('batch/batch/cloud/resource_utils.py', 'adjust_cores_for_packability', ru, ('clog2',)),
+    ('batch/batch/cloud/resource_utils.py', 'adjust_cores_for_packability', ru, ('clog2', 'pow2scale', 'imax')),
     ('batch/batch/cloud/resource_utils.py', 'round_storage_bytes_to_gib', ru, ('cdiv',)),
 ]
 UNCUT_SPECS = [  # encoded (checked as they are; integer-only)
@@ -55,7 +55,7 @@ UNCUT_SPECS = [  # encoded (checked as they are; integer-only)
 
 def limits(quick=False):
     return floatcut.Limits(mdiv_Bs=ALL_BS, scale_Bs=ALL_BS, mdiv_pmax=10, mdiv_m_bits=44,
-                           clog2_bits=24 if quick else 31, scale_jmax=23, cdiv_bits=47)
+                           clog2_bits=24 if quick else 28, scale_jmax=21, cdiv_bits=47)
 
 
 LIMITS = limits()
